@@ -16,6 +16,12 @@ pub mod execution;
 mod filtering;
 pub mod helpers;
 mod hints;
+#[cfg(feature = "__verif")]
+#[doc(hidden)]
+pub use hints::verif_hooks as verif_hints_hooks;
+#[cfg(feature = "__verif")]
+#[doc(hidden)]
+pub mod verif_hooks;
 pub mod replay;
 pub mod trace;
 
